@@ -38,6 +38,8 @@ def scenario(tA, tB, nA, nB, c0, c1, ts):
         if rsub[k] == 2:
             W.subscribe(mm, R[k], ALL)
     mm.wlist = [R[0].conn, R[1].conn, A.conn, B.conn]
+    if sh("r0block") is not None:
+        R[0].conn.block_at = sh("r0block")     # recipient 0's send buffer fills up: only matters to code that sends non-blockingly
     if sh("r1fail", 0):
         R[1].conn.fail_after = sh("r1fail") - 1
     if sh("xdrop", 0):
